@@ -95,6 +95,9 @@ const UNKNOWN_TRAITS: &[&str] = &[
 pub fn unknown_traits() -> &'static [&'static str] {
     UNKNOWN_TRAITS
 }
+pub fn helper_attrs() -> &'static [&'static str] {
+    HELPER_ATTRS
+}
 const HELPER_ATTRS: &[&str] = &[
     "#[ord(ignore)]",
     "#[ord(reverse)]",
@@ -224,6 +227,12 @@ pub const TYPES: &[&str] = &[
     "dyn for<'x> Fn(&'x T) + Send", "&dyn A", "A + B", "Box<dyn A + B + 'a>", "core::cell::Cell<T>",
     "fn() -> dyn A", "[(); N]", "<Self as Tr>::Assoc", "X<{ N + 1 }>", "X<'a, T, N>",
     "(dyn A + B)", "Box<(dyn A + B)>",
+    // names of std types a special case in the expander might key on, bare and qualified
+    "::core::marker::PhantomData<T>", "std::marker::PhantomData<u8>", "PhantomData<&'a T>", "PhantomData<fn() -> T>",
+    "Box<T>", "Rc<T>", "Arc<T>", "RefCell<T>", "Mutex<T>", "Cow<'a, T>", "Pin<Box<T>>", "Result<T, U>", "Option<u8>",
+    "std::option::Option<T>", "::std::vec::Vec<u8>", "str", "&'a [T]", "Box<str>", "Box<[T]>", "HashMap<T, U>",
+    "BTreeMap<u8, T>", "f32", "bool", "char", "usize", "i128", "NonZeroU8", "OrderedFloat<f64>", "Infallible",
+    "PhantomPinned", "ManuallyDrop<T>", "MaybeUninit<T>", "UnsafeCell<T>", "AtomicUsize", "Duration",
 ];
 const TYPE_WRAPS: &[&str] = &[
     "Option<__>", "&'a __", "[__; N]", "fn(__) -> __", "Box<__>", "(__,)", "*mut __", "&__",
